@@ -104,3 +104,73 @@ Proof.
       destruct (sm_get (t_children t) n); [rewrite st_for_set_parent|]; crush.
   - cbn [bind]. destruct (sm_get (t_children t) n); [rewrite st_for_set_parent|]; crush.
 Qed.
+
+(* ---- set_children *)
+Lemma upd_upd {A} (l : list A) : forall i x y, upd (upd l i x) i y = upd l i y.
+Proof. induction l as [|a r IH]; intros [|i] x y; cbn; try reflexivity. now rewrite IH. Qed.
+
+Lemma sm_set_set {V} (m m1 : slotmap V) k a b : sm_set m k a = Ok m1 -> sm_set m1 k b = sm_set m k b.
+Proof.
+  intro H. pose proof (sm_get_set_same H) as Hg. pose proof (sm_set_live H) as Hl.
+  unfold sm_set in *. rewrite Hg. destruct (sm_get m k); [|congruence].
+  inversion H; subst. cbn [sm_slots sm_free sm_num]. now rewrite upd_upd.
+Qed.
+
+(* the second loop of set_children *)
+Lemma st_for_set_children_loop p : forall cs t,
+  st_for cs (fun t4 v_child =>
+    o2 <- sm_index (t_parents t4) v_child ;;
+    t6 <- match o2 with
+      | Some v_previous_parent =>
+          x3 <- gen_remove_child t4 v_previous_parent v_child ;;
+          t5 <- unwrap_ret x3 ;;
+          Ok t5
+      | None => Ok t4
+      end ;;
+    t7 <- st_set_parent t6 v_child (Some p) ;;
+    Ok t7) t = set_children_loop t p cs.
+Proof.
+  induction cs as [|c r IH]; intro t; cbn [st_for set_children_loop]; [reflexivity|].
+  destruct (sm_index (t_parents t) c) as [pp|]; cbn [bind]; [|reflexivity].
+  destruct pp as [q|].
+  - rewrite gen_remove_child_eq. destruct (remove_child t q c) as [[t1 r1]|]; cbn [bind]; [|reflexivity].
+    unfold unwrap_ret. cbn [fst snd].
+    destruct r1; cbn [bind]; try reflexivity;
+      unfold st_set_parent; destruct (sm_set (t_parents t1) c (Some p)); cbn [bind]; try reflexivity; apply IH.
+  - cbn [bind]. unfold st_set_parent. destruct (sm_set (t_parents t) c (Some p)); cbn [bind]; [apply IH|reflexivity].
+Qed.
+
+(* parent_children.clear(); children.iter().for_each(|child| parent_children.push( * child)) *)
+Lemma st_for_push k : forall cs t m1 acc,
+  sm_set (t_children t) k acc = Ok m1 ->
+  st_for cs (fun t10 c => t11 <- st_push_child t10 k c ;; Ok t11) (set_children_map t m1) =
+  (c1 <- sm_set (t_children t) k (acc ++ cs) ;; Ok (set_children_map t c1)).
+Proof.
+  induction cs as [|c r IH]; intros t m1 acc H; cbn [st_for].
+  - rewrite app_nil_r, H. reflexivity.
+  - unfold st_push_child at 1. unfold st_vec_write, sm_index. unfold set_children_map at 1 2. cbn [t_children].
+    rewrite (sm_get_set_same H). cbn [of_opt bind].
+    rewrite (sm_set_set _ _ _ _ (acc ++ [c]) H).
+    destruct (sm_set (t_children t) k (acc ++ [c])) as [m2|] eqn:H2; cbn [bind].
+    + change (set_children_map (set_children_map t m1) m2) with (set_children_map t m2).
+      rewrite (IH t m2 (acc ++ [c]) H2). now rewrite <- app_assoc.
+    + unfold sm_set in *. destruct (sm_get (t_children t) k); congruence.
+Qed.
+
+Lemma gen_set_children_eq t p cs : gen_set_children t p cs = set_children t p cs.
+Proof.
+  unfold gen_set_children, set_children. cbv zeta.
+  destruct (sm_index (t_children t) p) as [old|]; cbn [bind]; [|reflexivity].
+  rewrite st_for_set_parent.
+  destruct (sm_set_all (t_parents t) old None) as [p1|]; cbn [bind]; [|reflexivity].
+  rewrite st_for_set_children_loop.
+  destruct (set_children_loop (set_parents_map t p1) p cs) as [t2|]; cbn [bind]; [|reflexivity].
+  unfold st_vec_clear, st_vec_write.
+  destruct (sm_index (t_children t2) p) as [l0|]; cbn [bind]; [|reflexivity].
+  destruct (sm_set (t_children t2) p []) as [m1|] eqn:H1; cbn [bind].
+  - rewrite (st_for_push p cs t2 m1 [] H1). cbn [app].
+    destruct (sm_set (t_children t2) p cs); cbn [bind]; [|reflexivity].
+    unfold st_mark_dirty, mark_dirty, set_children_map. cbn [t_nodes].
+    destruct (sm_contains (t_nodes t2) p); reflexivity.
+  - unfold sm_set in *. destruct (sm_get (t_children t2) p); [congruence|reflexivity].
+Qed.
